@@ -1282,3 +1282,320 @@ Proof.
   - apply H2. discriminate.
   - split; [exact H1|exact I].
 Qed.
+
+(* ------------------------------------------------------------------ *)
+(* histories                                                            *)
+Fixpoint dbenign (sm : dsessmap) (x : dstate) (h : list (fault * dop)) : Prop :=
+  match h with
+  | [] => True
+  | fo :: r => dtrigger sm (fst fo) x (snd fo) = false /\ dbenign sm (fst (dstep_f sm x fo)) r
+  end.
+
+Theorem drun_inv sm h : forall x, dinv sm x -> dbenign sm x h -> dinv sm (fst (drun sm x h)).
+Proof.
+  induction h as [|[f o] r IH]; intros x Hi Hb; [exact Hi|].
+  cbn [drun]. destruct Hb as [Ht Hb]. cbn [fst snd] in Ht.
+  pose proof (dstep_f_inv sm f x o Hi Ht) as H1.
+  destruct (dstep_f sm x (f, o)) as [x1 o1] eqn:E. cbn [fst] in *.
+  specialize (IH x1 H1 Hb). destruct (drun sm x1 r) as [x2 os]. exact IH.
+Qed.
+
+(* ------------------------------------------------------------------ *)
+(* reload: the cache rebuilt by the load path, the same sessions attached *)
+Definition dreload (x : dstate) : dstate :=
+  mkDState (dst x) (match dca x with Some c => Some (kc_sess (fun _ => k_sess c) (dload (dst x))) | None => None end) (dncalls x).
+
+Definition is_query (o : dop) : bool := match o with DGetDesc _ | DGetTags _ => true | _ => false end.
+
+Theorem reload_invisible_query sm f x q :
+  coherent_desc x -> is_query q = true -> snd (dstep sm f x q) = snd (dstep sm f (dreload x) q).
+Proof.
+  intros [Hwf Hc] Hq. destruct q; try discriminate; unfold dstep, dreload; cbn [dop_sid dst dca].
+  - destruct (dsess_uid sm sid =? 0)%N; [reflexivity|].
+    destruct (dca x) as [c|]; [|reflexivity].
+    unfold dattached. cbn [kc_sess k_sess].
+    destruct (alookup sid (k_sess c)); [|reflexivity].
+    cbn [snd dh_out]. unfold d_get_desc.
+    destruct Hc as [C1 [C2 [C3 [C4 [C5 [C6 [C7 _]]]]]]].
+    cbn [kc_sess k_users k_pub k_tru k_auth k_anon dload load_desc] in *.
+    rewrite C7, C1, C2, C3, C4. reflexivity.
+  - destruct (dsess_uid sm sid =? 0)%N; [reflexivity|].
+    destruct (dca x) as [c|]; [|reflexivity].
+    unfold dattached. cbn [kc_sess k_sess].
+    destruct (alookup sid (k_sess c)); [|reflexivity].
+    cbn [snd dh_out]. unfold d_get_tags.
+    destruct Hc as [C1 [C2 [C3 [C4 [C5 [C6 _]]]]]].
+    cbn [kc_sess k_tags k_owner dload load_desc] in *.
+    rewrite C5, C6. reflexivity.
+Qed.
+
+(* ... after any history without the triggers, from any well-formed store *)
+Theorem reload_invisible_after sm h s f q :
+  wf_store s -> dbenign sm (mkDState s None 0) h -> is_query q = true ->
+  let x := fst (drun sm (mkDState s None 0) h) in
+  snd (dstep sm f x q) = snd (dstep sm f (dreload x) q).
+Proof.
+  intros Hwf Hb Hq x. apply reload_invisible_query; [|exact Hq].
+  apply (dinv_coherent sm). apply drun_inv; [|exact Hb]. split; [exact Hwf|exact I].
+Qed.
+
+(* ------------------------------------------------------------------ *)
+(* ack => stored                                                        *)
+Definition val_after (old arg : N) : N := if (arg =? 0)%N then old else if (arg =? 1)%N then 0%N else arg.
+Definition acs_after (old : N) (arg : option N) : N :=
+  let v := acs_arg_val arg in if (v =? ModeUnset)%N then old else v.
+
+Lemma merge_val_after old arg : (if snd (merge_val old arg) then fst (merge_val old arg) else old) = val_after old arg.
+Proof.
+  unfold merge_val, val_after. destruct (arg =? 0)%N; [reflexivity|].
+  destruct (arg =? 1)%N; cbn [fst snd]; [|reflexivity].
+  destruct (old =? 0)%N eqn:E; cbn [negb]; [apply N.eqb_eq in E; exact E|reflexivity].
+Qed.
+
+Definition acked (sid : N) (o : dout) : Prop := In (sid, DCtrl 200) o.
+
+Theorem ack_tags_stored sm f x sid tags :
+  acked sid (snd (dstep sm f x (DSetTags sid tags))) ->
+  normalize_tags tags = Some (d_tags (dst (fst (dstep sm f x (DSetTags sid tags))))).
+Proof.
+  unfold acked, dstep. cbn [dop_sid].
+  destruct (dsess_uid sm sid =? 0)%N; [intros []|].
+  destruct (dca x) as [c|]; [|cbn; intros [H|[]]; inversion H].
+  destruct (dattached c sid); [|cbn; intros [H|[]]; inversion H].
+  cbn [fst snd dst]. unfold d_set_tags.
+  destruct (negb (N.eqb (k_owner c) (dsess_uid sm sid))); [cbn; intros [H|[]]; inversion H|].
+  destruct (normalize_tags tags) as [t|]; [|cbn; intros [H|[]]; inversion H].
+  destruct (negb (restricted_eq (k_tags c) t)); [cbn; intros [H|[]]; inversion H|].
+  destruct (tags_differ (k_tags c) t); [|cbn; intros [H|[]]; inversion H].
+  destruct (call f 0) as [ok n1]. destruct ok; cbn [negb]; [|cbn; intros [H|[]]; inversion H].
+  intros _. reflexivity.
+Qed.
+
+(* what an acknowledged {set desc} must have left in the store *)
+Definition desc_stored (s s' : dstore) (u : N) (defacs : option (option N * option N)) (pub tru priv : N) : Prop :=
+  d_auth s' = acs_after (d_auth s) (match defacs with Some (a, _) => a | None => None end) /\
+  d_anon s' = acs_after (d_anon s) (match defacs with Some (_, n) => n | None => None end) /\
+  d_pub s' = val_after (d_pub s) pub /\ d_tru s' = val_after (d_tru s) tru /\
+  (priv <> 0%N -> forall r, dfind u (d_subs s) = Some r ->
+     exists r', dfind u (d_subs s') = Some r' /\ r_priv r' = val_after (r_priv r) priv).
+
+Lemma assign_access_after c defacs acc :
+  assign_access c defacs = Some acc ->
+  (match acc with Some (a, _) => a | None => k_auth c end) = acs_after (k_auth c) (match defacs with Some (a, _) => a | None => None end) /\
+  (match acc with Some (_, n) => n | None => k_anon c end) = acs_after (k_anon c) (match defacs with Some (_, n) => n | None => None end).
+Proof.
+  unfold assign_access, acs_after. destruct defacs as [[a n]|]; [|intros H; inversion H; subst; cbn; auto].
+  destruct (match n with Some _ => acs_arg_invalid n | None => acs_arg_invalid a end); [discriminate|].
+  destruct (is_owner (acs_arg_val a) || is_owner (acs_arg_val n)); [discriminate|].
+  destruct (acs_arg_val a =? ModeUnset)%N eqn:Ea; destruct (acs_arg_val n =? ModeUnset)%N eqn:En;
+    rewrite ?N.eqb_refl; cbn [negb orb].
+  - intros H; inversion H; subst; auto.
+  - destruct (negb (acs_arg_val n =? k_anon c)%N) eqn:E; intros H; inversion H; subst; split; auto.
+    apply negb_false_iff, N.eqb_eq in E. auto.
+  - destruct (negb (acs_arg_val a =? k_auth c)%N) eqn:E; cbn [orb]; intros H; inversion H; subst; split; auto.
+    apply negb_false_iff, N.eqb_eq in E. auto.
+  - destruct (negb (acs_arg_val a =? k_auth c)%N || negb (acs_arg_val n =? k_anon c)%N) eqn:E; intros H; inversion H; subst; split; auto.
+    + apply orb_false_elim in E. destruct E as [E _]. apply negb_false_iff, N.eqb_eq in E. auto.
+    + apply orb_false_elim in E. destruct E as [_ E]. apply negb_false_iff, N.eqb_eq in E. auto.
+Qed.
+
+Lemma plan_fields c u root defacs pub tru priv p :
+  d_set_desc_plan c u root defacs pub tru priv = inr p ->
+  (match pl_acc p with Some (a, _) => a | None => k_auth c end) = acs_after (k_auth c) (match defacs with Some (a, _) => a | None => None end) /\
+  (match pl_acc p with Some (_, n) => n | None => k_anon c end) = acs_after (k_anon c) (match defacs with Some (_, n) => n | None => None end) /\
+  (match pl_pub p with Some v => v | None => k_pub c end) = val_after (k_pub c) pub /\
+  (match pl_tru p with Some v => v | None => k_tru c end) = val_after (k_tru c) tru /\
+  pl_prv p = fst (merge_val (q_priv (dget_pud c u)) priv) /\ pl_prch p = snd (merge_val (q_priv (dget_pud c u)) priv).
+Proof.
+  unfold d_set_desc_plan.
+  destruct (negb (tru =? 0)%N && negb root); [discriminate|].
+  destruct (N.eqb (k_owner c) u) eqn:Eo; cbn [negb andb].
+  - destruct (assign_access c defacs) as [acc|] eqn:Ea; [|discriminate].
+    pose proof (merge_val_after (k_pub c) pub) as Hp. pose proof (merge_val_after (k_tru c) tru) as Htr.
+    destruct (merge_val (k_pub c) pub) as [pv pch]. destruct (merge_val (k_tru c) tru) as [tv tch].
+    destruct (merge_val (q_priv (dget_pud c u)) priv) as [prv prch]. cbn [fst snd] in *.
+    match goal with |- (if ?b then _ else _) = _ -> _ => destruct b end; [discriminate|].
+    intros H. inversion H; subst. cbn [pl_acc pl_pub pl_tru pl_prv pl_prch].
+    destruct (assign_access_after c defacs acc Ea) as [A1 A2].
+    repeat split; try assumption.
+    + destruct pch; exact Hp.
+    + destruct tch; exact Htr.
+  - destruct (match defacs with Some _ => true | None => false end || negb (pub =? 0)%N || negb (tru =? 0)%N) eqn:Ed; [discriminate|].
+    apply orb_false_elim in Ed. destruct Ed as [Ed Et]. apply orb_false_elim in Ed. destruct Ed as [Ed Ep].
+    destruct defacs; [discriminate|].
+    apply negb_false_iff in Ep, Et.
+    destruct (merge_val (q_priv (dget_pud c u)) priv) as [prv prch]. cbn [fst snd].
+    match goal with |- (if ?b then _ else _) = _ -> _ => destruct b end; [discriminate|].
+    intros H. inversion H; subst. cbn [pl_acc pl_pub pl_tru pl_prv pl_prch].
+    unfold val_after, acs_after. rewrite Ep, Et. cbn. repeat split.
+Qed.
+
+Theorem ack_desc_stored_attached sm f x c sid defacs pub tru priv :
+  dinv sm x -> dca x = Some c -> dattached c sid = true -> dsess_uid sm sid <> 0%N ->
+  acked sid (snd (dstep sm f x (DSetDesc sid defacs pub tru priv))) ->
+  desc_stored (dst x) (dst (fst (dstep sm f x (DSetDesc sid defacs pub tru priv)))) (dsess_uid sm sid) defacs pub tru priv.
+Proof.
+  intros [Hwf Hinv] Ec Ea Hu. unfold acked, dstep. cbn [dop_sid]. rewrite Ec in *.
+  apply N.eqb_neq in Hu. rewrite Hu, Ea. cbn [fst snd dst].
+  set (u := dsess_uid sm sid) in *.
+  unfold d_set_desc.
+  destruct (d_set_desc_plan c u (dsess_root sm sid) defacs pub tru priv) as [code|p] eqn:Ep.
+  - (* rejected or not modified: the reply code is not 200 *)
+    cbn [dh_out dh_st]. intros [H|[]]. inversion H; subst.
+    exfalso. revert Ep. unfold d_set_desc_plan.
+    repeat match goal with
+           | |- context [if ?b then _ else _] => destruct b
+           | |- context [match ?m with Some _ => _ | None => _ end] => destruct m
+           | |- context [let '(_, _) := ?m in _] => destruct m
+           end; try discriminate.
+    all: try (match goal with p : _ * _ |- _ => destruct p end); try discriminate.
+    all: repeat match goal with
+           | |- context [if ?b then _ else _] => destruct b
+           | |- context [let '(_, _) := ?m in _] => destruct m
+           end; discriminate.
+  - destruct (plan_fields c u _ defacs pub tru priv p Ep) as [P1 [P2 [P3 [P4 [P5 P6]]]]].
+    destruct Hinv as [[C1 [C2 [C3 [C4 [C5 [C6 C7]]]]]] Hs].
+    cbn [load_desc dload k_auth k_anon k_pub k_tru] in C1, C2, C3, C4.
+    unfold d_set_desc_exec.
+    assert (Hnc : pl_ncore p = false -> pl_acc p = None /\ pl_pub p = None /\ pl_tru p = None).
+    { unfold pl_ncore. destruct (pl_acc p), (pl_pub p), (pl_tru p); try discriminate; auto. }
+    destruct (if pl_ncore p then call f 0 else (true, 0%nat)) as [ok1 n1].
+    destruct ok1; cbn [negb]; [|cbn; intros [H|[]]; inversion H].
+    destruct (if pl_prch p then call f n1 else (true, n1)) as [ok2 n2].
+    destruct ok2; cbn [negb]; [|cbn; intros [H|[]]; inversion H].
+    intros _. cbn [dh_st].
+    set (s1 := if pl_ncore p then dad_topic_update (dst x) (pl_acc p) (pl_pub p) (pl_tru p) else dst x).
+    assert (S1 : d_auth s1 = (match pl_acc p with Some (a, _) => a | None => d_auth (dst x) end) /\
+                 d_anon s1 = (match pl_acc p with Some (_, n) => n | None => d_anon (dst x) end) /\
+                 d_pub s1 = (match pl_pub p with Some v => v | None => d_pub (dst x) end) /\
+                 d_tru s1 = (match pl_tru p with Some v => v | None => d_tru (dst x) end) /\
+                 d_subs s1 = d_subs (dst x)).
+    { unfold s1. destruct (pl_ncore p) eqn:En; [cbn; repeat split; destruct (pl_acc p) as [[? ?]|]; reflexivity|].
+      destruct (Hnc eq_refl) as [-> [-> ->]]. repeat split. }
+    destruct S1 as [S1 [S2 [S3 [S4 S5]]]].
+    assert (Hf : forall s2, d_auth s2 = d_auth s1 -> d_anon s2 = d_anon s1 -> d_pub s2 = d_pub s1 -> d_tru s2 = d_tru s1 ->
+       (priv <> 0%N -> forall r, dfind u (d_subs (dst x)) = Some r ->
+            exists r', dfind u (d_subs s2) = Some r' /\ r_priv r' = val_after (r_priv r) priv) ->
+       desc_stored (dst x) s2 u defacs pub tru priv).
+    { intros s2 E1 E2 E3 E4 E5. unfold desc_stored.
+      rewrite E1, E2, E3, E4, S1, S2, S3, S4, <- C1, <- C2, <- C3, <- C4. repeat split; assumption. }
+    (* the requester's row *)
+    pose proof (sess_ok_attached sm c sid Hs Ea) as Hcached. fold u in Hcached.
+    pose proof (ua_lookup _ _ u (proj1 Hwf) C7) as Hl.
+    pose proof (merge_val_after (q_priv (dget_pud c u)) priv) as Hm. rewrite <- P5, <- P6 in Hm.
+    destruct (pl_prch p) eqn:Epr.
+    + apply Hf; try reflexivity. intros _ r Hr. rewrite Hr in Hl.
+      destruct (r_deleted r); [congruence|].
+      cbn [dad_subs_update ds_subs d_subs]. rewrite S5, dfind_dupd by reflexivity. rewrite N.eqb_refl, Hr. cbn [option_map].
+      eexists. split; [reflexivity|]. cbn [r_priv]. rewrite Hm.
+      unfold dget_pud. rewrite Hl. reflexivity.
+    + apply Hf; try reflexivity. intros _ r Hr. rewrite Hr in Hl.
+      destruct (r_deleted r); [congruence|].
+      rewrite S5. exists r. split; [exact Hr|]. unfold dget_pud in Hm. rewrite Hl in Hm. exact Hm.
+Qed.
+
+(* ------------------------------------------------------------------ *)
+(* reject => no change                                                  *)
+Definition rejected (sid : N) (o : dout) : Prop := exists code, In (sid, DCtrl code) o /\ 400 <= code.
+Definition is_set_or_query (o : dop) : bool :=
+  match o with DSetDesc _ _ _ _ _ | DSetTags _ _ | DGetDesc _ | DGetTags _ => true | _ => false end.
+
+Lemma rejected_single sid code : rejected sid [(sid, DCtrl code)] -> 400 <= code.
+Proof. intros [c [[H|[]] Hc]]. inversion H; subst. exact Hc. Qed.
+
+Theorem reject_no_change sm f x o :
+  dinv sm x -> fails f 2 = false -> is_set_or_query o = true ->
+  rejected (dop_sid o) (snd (dstep sm f x o)) ->
+  dst (fst (dstep sm f x o)) = dst x /\ dca (fst (dstep sm f x o)) = dca x.
+Proof.
+  intros [Hwf Hinv] Hf Hq. unfold dstep.
+  destruct o as [sid priv|sid unsub|sid defacs pub tru priv|sid tags|sid|sid| |]; try discriminate; cbn [dop_sid].
+  - (* DSetDesc *)
+    destruct (dsess_uid sm sid =? 0)%N; [cbn; auto|].
+    destruct (dca x) as [c|] eqn:Ec.
+    + destruct (dattached c sid).
+      * cbn [fst snd dst dca]. unfold d_set_desc.
+        destruct (d_set_desc_plan c _ _ defacs pub tru priv) as [code|p]; [cbn; auto|].
+        unfold d_set_desc_exec.
+        destruct (pl_ncore p) eqn:En.
+        -- unfold call. cbv beta iota. rewrite Hf. destruct (fails f 1); cbn [negb]; [cbn; auto|].
+           destruct (pl_prch p); cbn [negb dh_out]; intros Hr; apply rejected_single in Hr; lia.
+        -- destruct (pl_prch p); cbn [negb].
+           ++ unfold call. cbv beta iota. destruct (fails f 1); cbn [negb]; [cbn; auto|].
+              cbn [dh_out]. intros Hr; apply rejected_single in Hr; lia.
+           ++ cbn [dh_out]. intros Hr; apply rejected_single in Hr; lia.
+      * cbn [fst snd dst dca]. unfold d_offline_set_desc.
+        destruct (priv =? 0)%N; [cbn; auto|].
+        destruct (call f 0) as [ok1 n1]. destruct ok1; cbn [negb]; [|cbn; auto].
+        destruct (dad_sub_get (dst x) _ false); [|cbn; auto].
+        destruct (call f n1) as [ok2 n2]. destruct ok2; cbn [negb]; [|cbn; auto].
+        cbn [do_out]. intros Hr; apply rejected_single in Hr; lia.
+    + cbn [fst snd dst dca]. unfold d_offline_set_desc.
+      destruct (priv =? 0)%N; [cbn; auto|].
+      destruct (call f 0) as [ok1 n1]. destruct ok1; cbn [negb]; [|cbn; auto].
+      destruct (dad_sub_get (dst x) _ false); [|cbn; auto].
+      destruct (call f n1) as [ok2 n2]. destruct ok2; cbn [negb]; [|cbn; auto].
+      cbn [do_out]. intros Hr; apply rejected_single in Hr; lia.
+  - (* DSetTags *)
+    destruct (dsess_uid sm sid =? 0)%N; [cbn; auto|].
+    destruct (dca x) as [c|] eqn:Ec; [|cbn; auto].
+    destruct (dattached c sid); [|cbn; auto].
+    cbn [fst snd dst dca]. unfold d_set_tags.
+    destruct (negb (N.eqb (k_owner c) _)); [cbn; auto|].
+    destruct (normalize_tags tags) as [t|]; [|cbn; auto].
+    destruct (negb (restricted_eq (k_tags c) t)); [cbn; auto|].
+    assert (Hsort : nsort (k_tags c) = k_tags c).
+    { destruct Hinv as [[_ [_ [_ [_ [Ht _]]]]] _]. rewrite Ht. apply ssorted_nsort_id. apply Hwf. }
+    assert (Hc0 : match k_tags c, t with [], _ | _, [] => c | _, _ => kc_tags (nsort (k_tags c)) c end = c).
+    { rewrite Hsort, kc_tags_id. destruct (k_tags c), t; reflexivity. }
+    rewrite Hc0.
+    destruct (tags_differ (k_tags c) t); [|cbn; auto].
+    destruct (call f 0) as [ok n1]. destruct ok; cbn [negb]; [|cbn; auto].
+    cbn [dh_out]. intros Hr; apply rejected_single in Hr; lia.
+  - (* DGetDesc *)
+    destruct (dsess_uid sm sid =? 0)%N; [cbn; auto|].
+    destruct (dca x) as [c|] eqn:Ec.
+    + destruct (dattached c sid); [cbn; auto|]. cbn [fst snd dst dca]. rewrite offline_get_desc_st. auto.
+    + cbn [fst snd dst dca]. rewrite offline_get_desc_st. auto.
+  - (* DGetTags *)
+    destruct (dsess_uid sm sid =? 0)%N; [cbn; auto|].
+    destruct (dca x) as [c|] eqn:Ec; [|cbn; auto].
+    destruct (dattached c sid); cbn; auto.
+Qed.
+
+(* queries never change anything, whatever the answer and the fault plan *)
+Theorem query_no_change sm f x q : is_query q = true ->
+  dst (fst (dstep sm f x q)) = dst x /\ dca (fst (dstep sm f x q)) = dca x.
+Proof.
+  intros Hq. unfold dstep. destruct q; try discriminate; cbn [dop_sid].
+  - destruct (dsess_uid sm sid =? 0)%N; [cbn; auto|].
+    destruct (dca x) as [c|] eqn:Ec.
+    + destruct (dattached c sid); [cbn; auto|]. cbn [fst snd dst dca]. rewrite offline_get_desc_st. auto.
+    + cbn [fst snd dst dca]. rewrite offline_get_desc_st. auto.
+  - destruct (dsess_uid sm sid =? 0)%N; [cbn; auto|].
+    destruct (dca x) as [c|] eqn:Ec; [|cbn; auto].
+    destruct (dattached c sid); cbn; auto.
+Qed.
+
+(* the offline path stores a scalar private value as it is *)
+Theorem ack_desc_stored_offline sm f x sid defacs pub tru priv :
+  (forall c, dca x = Some c -> dattached c sid = false) -> dsess_uid sm sid <> 0%N ->
+  defacs = None -> pub = 0%N -> tru = 0%N -> priv <> 1%N ->
+  acked sid (snd (dstep sm f x (DSetDesc sid defacs pub tru priv))) ->
+  desc_stored (dst x) (dst (fst (dstep sm f x (DSetDesc sid defacs pub tru priv)))) (dsess_uid sm sid) defacs pub tru priv.
+Proof.
+  intros Hna Hu -> -> -> Hp. unfold acked, dstep. cbn [dop_sid].
+  apply N.eqb_neq in Hu. rewrite Hu.
+  assert (Hoff : (match dca x with Some c => if dattached c sid then Some c else None | None => None end) = None).
+  { destruct (dca x) as [c|]; [rewrite (Hna c eq_refl)|]; reflexivity. }
+  rewrite Hoff. cbn [fst snd dst]. unfold d_offline_set_desc.
+  destruct (priv =? 0)%N eqn:E0; [cbn; intros [H|[]]; inversion H|].
+  destruct (call f 0) as [ok1 n1]. destruct ok1; cbn [negb]; [|cbn; intros [H|[]]; inversion H].
+  destruct (dad_sub_get (dst x) (dsess_uid sm sid) false); [|cbn; intros [H|[]]; inversion H].
+  destruct (call f n1) as [ok2 n2]. destruct ok2; cbn [negb]; [|cbn; intros [H|[]]; inversion H].
+  intros _. cbn [do_st]. unfold desc_stored, acs_after, val_after. cbn [acs_arg_val dad_subs_update ds_subs d_auth d_anon d_pub d_tru d_subs].
+  repeat split.
+  intros _ r Hr. rewrite dfind_dupd by reflexivity. rewrite N.eqb_refl, Hr. cbn [option_map].
+  eexists. split; [reflexivity|]. cbn [r_priv]. rewrite E0.
+  destruct (priv =? 1)%N eqn:E1; [apply N.eqb_eq in E1; contradiction|reflexivity].
+Qed.
